@@ -21,6 +21,7 @@ type cmpSite struct {
 	p    Poly
 	text string
 	lt   types.Type
+	pa   Poly // the same polynomial with locals/parameters named by their type (alpha-invariant)
 }
 
 var flipOp = map[token.Token]token.Token{token.LSS: token.GTR, token.LEQ: token.GEQ, token.GTR: token.LSS, token.GEQ: token.LEQ, token.EQL: token.EQL, token.NEQ: token.NEQ}
@@ -56,7 +57,15 @@ func collectCmps(p *Prog) map[string][]cmpSite {
 				l = polyAtom(strings.ReplaceAll(types.ExprString(be.X), " ", ""))
 				r = polyAtom(strings.ReplaceAll(types.ExprString(be.Y), " ", ""))
 			}
-			out[fn] = append(out[fn], cmpSite{fn, be.Pos(), be.Op, polyAdd(l, r, -1), types.ExprString(be), info.TypeOf(be.X)})
+			polyAbstract = true
+			la, oka := exprPoly(info, be.X, nil, nil, 0)
+			ra, okb := exprPoly(info, be.Y, nil, nil, 0)
+			polyAbstract = false
+			if !oka || !okb {
+				la = polyAtom(absName(info, be.X))
+				ra = polyAtom(absName(info, be.Y))
+			}
+			out[fn] = append(out[fn], cmpSite{fn, be.Pos(), be.Op, polyAdd(l, r, -1), types.ExprString(be), info.TypeOf(be.X), polyAdd(la, ra, -1)})
 			return true
 		})
 	})
